@@ -139,7 +139,7 @@ Print Assumptions crypto_gated_history.
 (* gated operations never change a stored object (DeriveKey may add the derived key) *)
 Theorem gated_store_unchanged : forall cok s o r s',
   step cok s o = (r, s') -> gated o = true ->
-  s' = s \/ (exists us m, o = DeriveKey us m /\ r = OK /\ s' = add_obj s SymmetricKey m).
+  s' = s \/ (exists us m len, o = DeriveKey us m len /\ r = OK /\ s' = add_objv s SymmetricKey m (negb (len =? 0))).
 Proof. exact LifecycleProofs.gated_store_unchanged. Qed.
 Print Assumptions gated_store_unchanged.
 
@@ -147,7 +147,9 @@ Example crypto_gated_nonvacuous :
   let s := exec (empty_store 1) [(Create 671, true); (CreateKeyPair 2 1, true); (Activate 1, true); (Activate 2, true); (Activate 3, true)] in
   step true s (Encrypt 1 true) = (OK, s) /\ step true s (Decrypt 1 true) = (OK, s) /\ step true s (Sign 3 true) = (OK, s)
   /\ step true s (SignatureVerify 2 true) = (OK, s) /\ step true s (MAC 1 true true) = (OK, s)
-  /\ step true s (GetWrap 3 1) = (OK, s) /\ fst (step true s (DeriveKey [1] 12)) = OK
+  /\ step true s (GetWrap 3 1) = (OK, s) /\ fst (step true s (DeriveKey [1] 12 128)) = OK
+  /\ step true s (DeriveKey [1] 12 (-8)) = (Refused RParams InvalidField, s)
+  /\ step true s (DeriveKey [1] 12 12) = (Refused RParams InvalidField, s)
   /\ step true s (Sign 2 true) = (Refused RType PermissionDenied, s)
   /\ step true s (Encrypt 3 true) = (Refused RType PermissionDenied, s).
 Proof. vm_compute. repeat split. Qed.
@@ -192,6 +194,23 @@ Theorem revoke_ok_inv : forall cok s u c s',
   exists ob st, lookup u (objs s) = Some ob /\ ost ob = Some st /\ (c = KeyCompromise \/ st = Active).
 Proof. exact LifecycleProofs.revoke_ok_inv. Qed.
 Print Assumptions revoke_ok_inv.
+
+(* DeriveKey in full: base objects, a non-negative length that is a whole number of bytes (negative lengths refused since
+   /repo 02e2981), and what it adds - a key whose value is empty exactly when the requested length is 0, which MAC then
+   refuses ("A secret key value must be specified") *)
+Theorem derive_key_gated : forall cok s us m len r s',
+  step cok s (DeriveKey us m len) = (r, s') -> entered r ->
+  us <> [] /\ 0 <= len /\ len mod 8 = 0 /\
+  (forall u, In u us -> exists ob, lookup u (objs s) = Some ob /\ derivable (oty ob) = true /\ has_bit (omask ob) bDERIVE_KEY = true) /\
+  (r = OK -> s' = add_objv s SymmetricKey m (negb (len =? 0))) /\ (r <> OK -> s' = s).
+Proof. exact LifecycleProofs.derive_key_gated. Qed.
+Print Assumptions derive_key_gated.
+
+Example derive_zero_length_nonvacuous :
+  let s := exec (empty_store 1) [(Create 671, true); (DeriveKey [1] 671 0, true); (Activate 2, true)] in
+  (exists ob, lookup 2 (objs s) = Some ob /\ oval ob = false /\ ost ob = Some Active)
+  /\ step true s (MAC 2 true true) = (Refused RParams PermissionDenied, s).
+Proof. split. eexists. split. vm_compute. reflexivity. split; reflexivity. vm_compute. reflexivity. Qed.
 
 (* ---------------------------------------------------------------- 5. Destroy is refused for an Active object *)
 Theorem destroy_refused_when_active : forall cok s u ob,
